@@ -215,7 +215,9 @@ func (cli *Client) handshake(c diam.Conn) (diam.Conn, error) {
 
 	var dwac chan struct{}
 	if cli.EnableWatchdog {
-		dwac = make(chan struct{})
+		// Buffered: handleDWA does not block, so an answer arriving
+		// before dwr starts waiting for it would otherwise be lost.
+		dwac = make(chan struct{}, 1)
 		cli.Handler.mux.Handle("DWA", handshakeOK(handleDWA(cli.Handler, dwac)))
 	}
 	for i := 0; i < (int(cli.MaxRetransmits) + 1); i++ {
@@ -295,6 +297,12 @@ func (cli *Client) watchdog(c diam.Conn, dwac chan struct{}) {
 }
 
 func (cli *Client) dwr(c diam.Conn, osid uint32, dwac chan struct{}) {
+	// Drop an acknowledgement left over from an earlier request
+	// (duplicate or late DWA): it does not answer this one.
+	select {
+	case <-dwac:
+	default:
+	}
 	m := cli.makeDWR(osid)
 	for i := 0; i < (int(cli.MaxRetransmits) + 1); i++ {
 		_, err := m.WriteToStream(c, cli.WatchdogStream)
